@@ -9,6 +9,7 @@ kinds
     W  side-effecting call  unstored call that writes its term into the store of node `target` (a D)
     D  dependent source     registry.source(plan, store) with add_dependency(W, D)
     L  plan literal         plan.lit(("lit", i)) with add_dependency(dep, L); transparent for dependencies
+    K  stored literal       plan.lit(("lit", i)) with registry.add(literal, store) (and optional dependencies)
     A  alias source         registry.source over the SAME stored slot as stored call `of`, with
                             add_dependency(of, A) (the "source dependent on write" idiom)
 args are positional argument edges, deps plain add_dependency edges (a pair may have both).
@@ -40,8 +41,8 @@ class Death(BaseException):
 # spec helpers
 # --------------------------------------------------------------------------
 
-STORED = ("S", "C", "D")  # kinds that own a stored slot
-TIMED = ("S", "C", "D", "A")  # kinds that have a value store (A shares the slot of its `of` node)
+STORED = ("S", "C", "D", "K")  # kinds that own a stored slot
+TIMED = ("S", "C", "D", "A", "K")  # kinds that have a value store (A shares the slot of its `of` node)
 
 
 def slot(spec, i):
@@ -131,6 +132,9 @@ def scratch(spec, versions, norm):
             seen[i] = R(stored[i], norm)
         elif k == "L":
             seen[i] = ("lit", i)
+        elif k == "K":
+            stored[i] = ("lit", i)
+            seen[i] = R(stored[i], norm)
         elif k == "A":
             seen[i] = R(stored[nd["of"]], norm)
         else:
@@ -197,7 +201,7 @@ def expected_events(spec, ood, outset):
                     need = True
             if need:
                 ex.add(i)
-    writes = {i for i in ood if spec[i]["kind"] == "C"}
+    writes = {i for i in ood if spec[i]["kind"] in ("C", "K")}
     reads = set()
     for i, nd in enumerate(spec):
         if nd["kind"] not in TIMED:
@@ -302,6 +306,13 @@ class World:
                 node = reg.source(plan, st)
             elif k == "L":
                 node = plan.lit(("lit", i))
+            elif k == "K":
+                node = plan.lit(("lit", i))
+                st = self.stores[i] = self.MemStore(i)
+                if self.order == "adds-late":
+                    late.append((node, st))
+                else:
+                    reg.add(node, st)
             else:
                 node = plan.call(self.make_fn(i), *[nodes[a] for a in nd.get("args", ())])
                 if k == "C":
@@ -435,7 +446,7 @@ def check_run(spec, pre_snap, versions, world, res, out, fresh, anc, norm):
     # ---- C03: values
     post = world.snap
     for i, nd in enumerate(spec):
-        if nd["kind"] in ("C", "D"):
+        if nd["kind"] in ("C", "D", "K"):
             cur = post.get(i)
             if cur is None:
                 msgs.append(("C03", f"store {i} is empty after a successful run"))
@@ -473,7 +484,7 @@ def check_run(spec, pre_snap, versions, world, res, out, fresh, anc, norm):
                 if kind == "a" and (r is None or cj < r):
                     msgs.append(("C09", f"call {j} started before the rewritten value of {i} was read back"))
         for j in range(len(spec)):
-            if i in anc[j] and spec[j]["kind"] == "C":
+            if i in anc[j] and spec[j]["kind"] in ("C", "K"):
                 wj = pos.get(("write", j))
                 if wj is None:
                     msgs.append(("C09", f"store {j} is downstream of rewritten store {i} but was not rewritten in the same run"))
@@ -484,7 +495,7 @@ def check_run(spec, pre_snap, versions, world, res, out, fresh, anc, norm):
             r = pos[("read", i)]
             for p in eff_preds(spec, i):
                 kp = spec[p]["kind"]
-                if kp == "C":
+                if kp in ("C", "K"):
                     if p not in ood:
                         continue
                     wp = pos.get(("write.done", p))
@@ -515,7 +526,7 @@ def check_cut(spec, versions, world, fresh, anc, pre_snap):
     for fr in {None, fresh}:
         ood = out_of_date(spec, post, fr, anc)
         for i, nd in enumerate(spec):
-            if nd["kind"] not in ("C", "D"):
+            if nd["kind"] not in ("C", "D", "K"):
                 continue
             cur = post.get(i)
             if cur is None or i in ood:
@@ -556,7 +567,7 @@ def initial_state(spec):
             clock += 1
             versions[i] = 0
             snap[i] = (clock, ("src", i, 0))
-        elif nd["kind"] in ("C", "D"):
+        elif nd["kind"] in ("C", "D", "K"):
             snap[i] = None
     return snap, versions, clock
 
@@ -576,7 +587,7 @@ def events_for(spec, snap, opts):
             ev.append(("UPDATE", i))
         # "deletions of stored values": values stored by runs (C, D).  A pure source that is
         # missing is absent user input, not a state a run can repair (DESIGN.md, C05 notes).
-        if nd["kind"] in ("C", "D") and snap.get(i) is not None:
+        if nd["kind"] in ("C", "D", "K") and snap.get(i) is not None:
             ev.append(("DELETE", i))
     return ev
 
